@@ -34,7 +34,7 @@ ASSUMPTIONS = [
     "Extreme current states (one individual with xi = 100, i.e. non-finite energy terms) are generated: a NaN ratio must give a rejection (u < NaN is false).",
 ]
 REQUIRED_CLASSES = {"step:individual": 200, "step:Gibbs": 60, "step:FastGibbs": 60, "step:Metropolis-Hastings": 60, "beta<1": 300,
-                    "has-accept-and-reject": 100, "near-boundary": 100, "alpha>=1": 50, "nontrivial": 200, "consecutive-call": 150, "fixed-block-order": 100, "extreme-state": 200, "kind:mixture_logistic": 80}
+                    "has-accept-and-reject": 100, "near-boundary": 100, "alpha>=1": 50, "nontrivial": 200, "consecutive-call": 150, "fixed-block-order": 100, "extreme-state": 200, "kind:mixture_logistic": 80, "alpha=inf": 15}
 
 
 class Fail(Exception):
@@ -81,6 +81,11 @@ def run_step(c, case, *, forced_u=None, perturb_others_of=None):
 
     s = fresh_state(c["state0"])
     name = c02._pick(c["ind_latent"] if case["which"] == "ind" else c["pop_latent"], case["var"])
+    if case.get("pop_shift") and case["which"] == "pop":
+        # a state far from the mode of the sampled population variable: single moves change the energy by hundreds of units
+        # (exp(-D) overflows to +inf for large improvements - such a proposal must be accepted)
+        with s.auto_fork(None):
+            s[name] = fast_copy(s._values[name]) + float(case["pop_shift"])
     if case.get("extreme") is not None and "xi" in c["ind_latent"]:
         # a current state in which one individual has a non-finite energy term (its decisions must still follow u < exp(-D))
         with s.auto_fork(None):
@@ -256,6 +261,8 @@ def body(col: Collector, case):
                     classes.append("alpha>=1")
                 if bool((torch.as_tensor(alpha_ref).reshape(-1) == 0).any()):
                     classes.append("alpha=0")
+                if bool(torch.isinf(torch.as_tensor(alpha_ref).reshape(-1)).any()):
+                    classes.append("alpha=inf")
             # ---- state after (per block semantics): accepted -> proposed, rejected -> previous
             if individual:
                 accm = decisions[0]["accepted"].to(torch.bool).reshape((-1,) + (1,) * (puts[0]["after"].ndim - 1))
@@ -341,6 +348,7 @@ def step_case(draw, kinds):
         locality=draw(st.none() | st.integers(0, 7)), boundary=draw(st.booleans()),
         random_order=draw(st.sampled_from([True, True, False])), n_calls=draw(st.sampled_from([1, 1, 2, 3])),
         extreme=draw(st.sampled_from([None, None, None, 0, 1, 3])),
+        pop_shift=draw(st.sampled_from([0.0, 0.0, 1.5, -1.0, 3.0])),
     )
     return c
 
